@@ -180,5 +180,14 @@ def same_relation_rule(crate, prop, rule="C03.R4"):
     r.inst(edge="export_recursive -> <T as TS>::visit_dependencies", present=ok)
     if not ok:
         r.fail(prop, "edge-missing export_recursive -> visit_dependencies", "exported files are not driven by visit_dependencies")
-    r.floor = 3
+    # the file written for T declares T::WithoutGenerics and imports what *that* type depends on (export_to_string ->
+    # generate_imports::<T::WithoutGenerics>).  With `concrete(..)` its dependencies differ from T's, so the exporter has to walk
+    # them as well, or the file imports something nobody wrote.
+    ok = er is not None and any(fn_matches(t, r"TS::visit_dependencies$") and "WithoutGenerics" in (t["fn"].get("args") or [""])[0] for _, t in er.calls())
+    r.inst(edge="export_recursive -> <T::WithoutGenerics as TS>::visit_dependencies", present=ok)
+    if not ok:
+        r.fail(prop, "exporter-walks-other-relation-than-importer export_recursive",
+               "imports are computed from the dependencies of T::WithoutGenerics, exported files from those of T only: with `#[ts(concrete(D = Sql))] struct Connection<D: Driver> { info: D::Info }` used as `Connection<Kv>`, Connection.ts imports `./SqlInfo`, which export_all never writes",
+               er.file() if er else None, er.line() if er else None)
+    r.floor = 4
     return r
